@@ -15,6 +15,8 @@ CONSTANTS Script,      \* sequence of "start" / "stop" / "endrep" (end_replicati
           NEvents,     \* events on the event list (times 1..NEvents, replication end beyond)
           Faulty,      \* set of event numbers whose handler raises (WARN_AND_PAUSE)
           Stoppers,    \* set of event numbers whose handler calls stop() (a command issued on the run thread)
+          OnStart,     \* "stop": a START_EVENT listener calls stop() (once), on the run thread before it writes STARTED; "none"
+          OnStop,      \* "start": a STOP_EVENT listener calls start() (once), on the run thread before it writes STOPPED; "none"
           Fixes,
           AnyTimeout   \* TRUE: a spin wait may time out at any sleep; FALSE: only when the other thread cannot move
 
@@ -29,14 +31,18 @@ variables rs = "INITIALIZED", rep = "INITIALIZED", runflag = FALSE, fin = FALSE,
           staleStart = FALSE,   \* history: a start was admitted before the run thread cleared the previous wake-up
           lateEnd = FALSE,      \* history: end_replication() wrote ENDING after the run thread had already written ENDED
           staleEnd = FALSE,     \* history: end_replication() woke the run thread just before it cleared its wake-up flag
+          earlyStop = FALSE,    \* history: a START_EVENT listener's stop() wrote STOPPING before the run thread wrote STARTED over it
+          selfStart = FALSE,    \* history: a STOP_EVENT listener's start() was admitted on the run thread, which then clears its own wake-up
+          usedStart = FALSE, usedStop = FALSE,   \* the listeners act once
+          hret = "R1a",         \* where stop() on the run thread returns to: the run loop (handler) or W5 (START_EVENT listener)
           wrote = FALSE,        \* the command in progress has written shared state
           afterStop = -1,       \* events executed since an accepted stop() wrote STOPPING (-1: no stop in force)
           ctimedout = FALSE, wtimedout = FALSE,   \* a second has passed since the caller's / the run thread's current spin wait began (time is global)
           last = [t |-> "-", k |-> "-", v |-> "-", x |-> "-"];   \* the access just performed (binding)
 
 define
-  InRunLoop(p) == p \in {"R0", "R1a", "R1b", "R_body", "R_fault", "R_end1", "R_end2", "H1a", "H1b", "H3", "H4f", "H4s"}
-  PostRun(p) == p \in {"W7", "W8", "W9a", "W9b", "W9c", "W_clear", "W_loop", "W_wait"}
+  InRunLoop(p) == p \in {"R0", "R1a", "R1b", "R_body", "R_fault", "R_end1", "R_end2"} \/ (p \in {"H1a", "H1b", "H3", "H4f", "H4s"} /\ hret = "R1a")
+  PostRun(p) == p \in {"W7", "W8", "W9a", "W9b", "W9c", "W_clear", "W_loop", "W_wait", "L1a", "L1b", "L2", "L3a", "L3b", "L5", "L6a", "L6b", "L8", "L9r", "L9s", "L10"}
   WBlocked == pc["w"] = "W_woke" /\ ~flag
   WDone == pc["w"] = "Done"
 end define;
@@ -60,7 +66,9 @@ W2:
   end if;
 W3:
   Acc("w", "R", "rep", rep);
-  if rep = "ENDING" then goto W8; end if;
+  if rep = "ENDING" then goto W8;
+  elsif OnStart = "stop" /\ ~usedStart then usedStart := TRUE; hret := "W5"; goto H1a;   \* fire START_EVENT: the listener calls stop()
+  end if;
 W5:
   rs := "STARTED"; Acc("w", "W", "rs", "STARTED");
 R0:
@@ -73,7 +81,8 @@ R1a:      \* while not self.is_stopping_or_stopped(): run_state == STARTING ?
   end if;
 R1b:      \* run_state == STARTED ?
   Acc("w", "R", "rs", rs);
-  if rs # "STARTED" then goto W7;
+  if rs # "STARTED" then
+    if OnStop = "start" /\ ~usedStop then usedStop := TRUE; goto L1a; else goto W7; end if;   \* fire STOP_EVENT: the listener calls start()
   elsif next <= NEvents then cur := next; next := next + 1;
   else cur := 0; end if;
 R_body:
@@ -92,12 +101,18 @@ H1a:      \* the handler calls stop(): is_stopping_or_stopped() ...
   if rs = "STARTING" then goto H3; end if;
 H1b:
   Acc("w", "R", "rs", rs);
-  if rs # "STARTED" then goto R_fault; end if;    \* refused inside the handler: the DSOLError makes the handler fail (pause strategy)
+  if rs # "STARTED" then
+    if hret = "W5" then hret := "R1a"; goto W5;     \* refused inside the listener (which swallows the DSOLError)
+    else goto R_fault; end if;                      \* refused inside the handler: the DSOLError makes the handler fail (pause strategy)
+  end if;
 H3:
-  rs := "STOPPING"; wtimedout := FALSE; Acc("w", "W", "rs", "STOPPING");
+  earlyStop := earlyStop \/ hret = "W5";
+  rs := "STOPPING"; wtimedout := FALSE; afterStop := 0; Acc("w", "W", "rs", "STOPPING");
 H4f:      \* _stop_impl waits for the run thread to be parked: the run thread waits for itself until a second has passed
   AccB("w", "R", "fin", fin);
-  if wtimedout then goto R1a; end if;
+  if wtimedout then
+    if hret = "W5" then hret := "R1a"; goto W5; else goto R1a; end if;
+  end if;
 H4s:
   either
     Acc("w", "sleep", "-", "-");
@@ -110,6 +125,44 @@ R_fault:  \* WARN_AND_PAUSE: self._run_state = STOPPING
   goto R1a;
 R_end2:
   rs := "STOPPING"; Acc("w", "W", "rs", "STOPPING");
+  if OnStop = "start" /\ ~usedStop then usedStop := TRUE; goto L1a; else goto W7; end if;
+L1a:      \* the STOP_EVENT listener calls start() on the run thread: is_starting_or_running() ...
+  Acc("w", "R", "rs", rs);
+  if rs = "STARTING" then goto W7; end if;        \* refused (the listener swallows the DSOLError)
+L1b:
+  Acc("w", "R", "rs", rs);
+  if rs = "STARTED" then goto W7; end if;
+L2:
+  Acc("w", "R", "rs", rs);
+  if rs = "NOT_INITIALIZED" then goto W7; end if;
+L3a:
+  Acc("w", "R", "rep", rep);
+  if rep = "INITIALIZED" then goto L5; end if;
+L3b:
+  Acc("w", "R", "rep", rep);
+  if rep # "STARTED" then goto W7; end if;        \* after the natural end (ENDING) the start is refused
+L5:
+  selfStart := TRUE;
+  rs := "STARTING"; afterStop := -1; Acc("w", "W", "rs", "STARTING");
+L6a:
+  Acc("w", "R", "rep", rep);
+  if rep # "INITIALIZED" then goto L8; end if;
+L6b:
+  rep := "STARTED"; Acc("w", "W", "rep", "STARTED");
+L8:
+  flag := TRUE; wtimedout := FALSE; Acc("w", "ev", "set", "-");
+L9r:
+  AccB("w", "R", "runflag", runflag);
+  if runflag \/ wtimedout then goto L10; end if;
+L9s:      \* the run thread waits for its own run loop: only the clock ends this
+  either
+    Acc("w", "sleep", "-", "-");
+  or
+    wtimedout := TRUE; ctimedout := TRUE; Acc("w", "sleep", "timeout", "-");
+  end either;
+  goto L9r;
+L10:
+  runflag := FALSE; startsOK := startsOK + 1; AccB("w", "W", "runflag", FALSE);
 W7:
   rs := "STOPPED"; afterStop := -1; Acc("w", "W", "rs", "STOPPED");
 W8:
@@ -238,20 +291,22 @@ end process;
 end algorithm; *)
 \* BEGIN TRANSLATION
 VARIABLES pc, rs, rep, runflag, fin, flag, next, cur, endsOK, res, startsOK, 
-          segments, lateStop, staleStart, lateEnd, staleEnd, wrote, afterStop, 
-          ctimedout, wtimedout, last
+          segments, lateStop, staleStart, lateEnd, staleEnd, earlyStop, 
+          selfStart, usedStart, usedStop, hret, wrote, afterStop, ctimedout, 
+          wtimedout, last
 
 (* define statement *)
-InRunLoop(p) == p \in {"R0", "R1a", "R1b", "R_body", "R_fault", "R_end1", "R_end2", "H1a", "H1b", "H3", "H4f", "H4s"}
-PostRun(p) == p \in {"W7", "W8", "W9a", "W9b", "W9c", "W_clear", "W_loop", "W_wait"}
+InRunLoop(p) == p \in {"R0", "R1a", "R1b", "R_body", "R_fault", "R_end1", "R_end2"} \/ (p \in {"H1a", "H1b", "H3", "H4f", "H4s"} /\ hret = "R1a")
+PostRun(p) == p \in {"W7", "W8", "W9a", "W9b", "W9c", "W_clear", "W_loop", "W_wait", "L1a", "L1b", "L2", "L3a", "L3b", "L5", "L6a", "L6b", "L8", "L9r", "L9s", "L10"}
 WBlocked == pc["w"] = "W_woke" /\ ~flag
 WDone == pc["w"] = "Done"
 
 VARIABLES i, ok
 
 vars == << pc, rs, rep, runflag, fin, flag, next, cur, endsOK, res, startsOK, 
-           segments, lateStop, staleStart, lateEnd, staleEnd, wrote, 
-           afterStop, ctimedout, wtimedout, last, i, ok >>
+           segments, lateStop, staleStart, lateEnd, staleEnd, earlyStop, 
+           selfStart, usedStart, usedStop, hret, wrote, afterStop, ctimedout, 
+           wtimedout, last, i, ok >>
 
 ProcSet == {"w"} \cup {"c"}
 
@@ -271,6 +326,11 @@ Init == (* Global variables *)
         /\ staleStart = FALSE
         /\ lateEnd = FALSE
         /\ staleEnd = FALSE
+        /\ earlyStop = FALSE
+        /\ selfStart = FALSE
+        /\ usedStart = FALSE
+        /\ usedStop = FALSE
+        /\ hret = "R1a"
         /\ wrote = FALSE
         /\ afterStop = -1
         /\ ctimedout = FALSE
@@ -290,8 +350,8 @@ W_woke == /\ pc["w"] = "W_woke"
                 ELSE /\ pc' = [pc EXCEPT !["w"] = "W2"]
           /\ UNCHANGED << rs, rep, runflag, fin, flag, next, cur, endsOK, res, 
                           startsOK, segments, lateStop, staleStart, lateEnd, 
-                          staleEnd, wrote, afterStop, ctimedout, wtimedout, i, 
-                          ok >>
+                          staleEnd, earlyStop, selfStart, usedStart, usedStop, 
+                          hret, wrote, afterStop, ctimedout, wtimedout, i, ok >>
 
 W_clear0 == /\ pc["w"] = "W_clear0"
             /\ flag' = FALSE
@@ -299,8 +359,9 @@ W_clear0 == /\ pc["w"] = "W_clear0"
             /\ pc' = [pc EXCEPT !["w"] = "W2"]
             /\ UNCHANGED << rs, rep, runflag, fin, next, cur, endsOK, res, 
                             startsOK, segments, lateStop, staleStart, lateEnd, 
-                            staleEnd, wrote, afterStop, ctimedout, wtimedout, 
-                            i, ok >>
+                            staleEnd, earlyStop, selfStart, usedStart, 
+                            usedStop, hret, wrote, afterStop, ctimedout, 
+                            wtimedout, i, ok >>
 
 W2 == /\ pc["w"] = "W2"
       /\ last' = [t |-> "w", k |-> "R", v |-> "fin", x |-> IF fin THEN "True" ELSE "False"]
@@ -311,16 +372,24 @@ W2 == /\ pc["w"] = "W2"
             ELSE /\ pc' = [pc EXCEPT !["w"] = "W3"]
       /\ UNCHANGED << rs, rep, runflag, fin, flag, next, cur, endsOK, res, 
                       startsOK, segments, lateStop, staleStart, lateEnd, 
-                      staleEnd, wrote, afterStop, ctimedout, wtimedout, i, ok >>
+                      staleEnd, earlyStop, selfStart, usedStart, usedStop, 
+                      hret, wrote, afterStop, ctimedout, wtimedout, i, ok >>
 
 W3 == /\ pc["w"] = "W3"
       /\ last' = [t |-> "w", k |-> "R", v |-> "rep", x |-> rep]
       /\ IF rep = "ENDING"
             THEN /\ pc' = [pc EXCEPT !["w"] = "W8"]
-            ELSE /\ pc' = [pc EXCEPT !["w"] = "W5"]
+                 /\ UNCHANGED << usedStart, hret >>
+            ELSE /\ IF OnStart = "stop" /\ ~usedStart
+                       THEN /\ usedStart' = TRUE
+                            /\ hret' = "W5"
+                            /\ pc' = [pc EXCEPT !["w"] = "H1a"]
+                       ELSE /\ pc' = [pc EXCEPT !["w"] = "W5"]
+                            /\ UNCHANGED << usedStart, hret >>
       /\ UNCHANGED << rs, rep, runflag, fin, flag, next, cur, endsOK, res, 
                       startsOK, segments, lateStop, staleStart, lateEnd, 
-                      staleEnd, wrote, afterStop, ctimedout, wtimedout, i, ok >>
+                      staleEnd, earlyStop, selfStart, usedStop, wrote, 
+                      afterStop, ctimedout, wtimedout, i, ok >>
 
 W5 == /\ pc["w"] = "W5"
       /\ rs' = "STARTED"
@@ -328,7 +397,8 @@ W5 == /\ pc["w"] = "W5"
       /\ pc' = [pc EXCEPT !["w"] = "R0"]
       /\ UNCHANGED << rep, runflag, fin, flag, next, cur, endsOK, res, 
                       startsOK, segments, lateStop, staleStart, lateEnd, 
-                      staleEnd, wrote, afterStop, ctimedout, wtimedout, i, ok >>
+                      staleEnd, earlyStop, selfStart, usedStart, usedStop, 
+                      hret, wrote, afterStop, ctimedout, wtimedout, i, ok >>
 
 R0 == /\ pc["w"] = "R0"
       /\ runflag' = TRUE
@@ -336,8 +406,9 @@ R0 == /\ pc["w"] = "R0"
       /\ last' = [t |-> "w", k |-> "W", v |-> "runflag", x |-> IF TRUE THEN "True" ELSE "False"]
       /\ pc' = [pc EXCEPT !["w"] = "R1a"]
       /\ UNCHANGED << rs, rep, fin, flag, next, cur, endsOK, res, startsOK, 
-                      lateStop, staleStart, lateEnd, staleEnd, wrote, 
-                      afterStop, ctimedout, wtimedout, i, ok >>
+                      lateStop, staleStart, lateEnd, staleEnd, earlyStop, 
+                      selfStart, usedStart, usedStop, hret, wrote, afterStop, 
+                      ctimedout, wtimedout, i, ok >>
 
 R1a == /\ pc["w"] = "R1a"
        /\ last' = [t |-> "w", k |-> "R", v |-> "rs", x |-> rs]
@@ -352,12 +423,17 @@ R1a == /\ pc["w"] = "R1a"
                   /\ UNCHANGED << next, cur >>
        /\ UNCHANGED << rs, rep, runflag, fin, flag, endsOK, res, startsOK, 
                        segments, lateStop, staleStart, lateEnd, staleEnd, 
-                       wrote, afterStop, ctimedout, wtimedout, i, ok >>
+                       earlyStop, selfStart, usedStart, usedStop, hret, wrote, 
+                       afterStop, ctimedout, wtimedout, i, ok >>
 
 R1b == /\ pc["w"] = "R1b"
        /\ last' = [t |-> "w", k |-> "R", v |-> "rs", x |-> rs]
        /\ IF rs # "STARTED"
-             THEN /\ pc' = [pc EXCEPT !["w"] = "W7"]
+             THEN /\ IF OnStop = "start" /\ ~usedStop
+                        THEN /\ usedStop' = TRUE
+                             /\ pc' = [pc EXCEPT !["w"] = "L1a"]
+                        ELSE /\ pc' = [pc EXCEPT !["w"] = "W7"]
+                             /\ UNCHANGED usedStop
                   /\ UNCHANGED << next, cur >>
              ELSE /\ IF next <= NEvents
                         THEN /\ cur' = next
@@ -365,9 +441,11 @@ R1b == /\ pc["w"] = "R1b"
                         ELSE /\ cur' = 0
                              /\ next' = next
                   /\ pc' = [pc EXCEPT !["w"] = "R_body"]
+                  /\ UNCHANGED usedStop
        /\ UNCHANGED << rs, rep, runflag, fin, flag, endsOK, res, startsOK, 
                        segments, lateStop, staleStart, lateEnd, staleEnd, 
-                       wrote, afterStop, ctimedout, wtimedout, i, ok >>
+                       earlyStop, selfStart, usedStart, hret, wrote, afterStop, 
+                       ctimedout, wtimedout, i, ok >>
 
 R_body == /\ pc["w"] = "R_body"
           /\ IF cur # 0
@@ -385,7 +463,8 @@ R_body == /\ pc["w"] = "R_body"
                      /\ UNCHANGED afterStop
           /\ UNCHANGED << rs, runflag, fin, flag, next, cur, endsOK, res, 
                           startsOK, segments, lateStop, staleStart, lateEnd, 
-                          staleEnd, wrote, ctimedout, wtimedout, i, ok >>
+                          staleEnd, earlyStop, selfStart, usedStart, usedStop, 
+                          hret, wrote, ctimedout, wtimedout, i, ok >>
 
 H1a == /\ pc["w"] = "H1a"
        /\ last' = [t |-> "w", k |-> "R", v |-> "rs", x |-> rs]
@@ -394,34 +473,50 @@ H1a == /\ pc["w"] = "H1a"
              ELSE /\ pc' = [pc EXCEPT !["w"] = "H1b"]
        /\ UNCHANGED << rs, rep, runflag, fin, flag, next, cur, endsOK, res, 
                        startsOK, segments, lateStop, staleStart, lateEnd, 
-                       staleEnd, wrote, afterStop, ctimedout, wtimedout, i, ok >>
+                       staleEnd, earlyStop, selfStart, usedStart, usedStop, 
+                       hret, wrote, afterStop, ctimedout, wtimedout, i, ok >>
 
 H1b == /\ pc["w"] = "H1b"
        /\ last' = [t |-> "w", k |-> "R", v |-> "rs", x |-> rs]
        /\ IF rs # "STARTED"
-             THEN /\ pc' = [pc EXCEPT !["w"] = "R_fault"]
+             THEN /\ IF hret = "W5"
+                        THEN /\ hret' = "R1a"
+                             /\ pc' = [pc EXCEPT !["w"] = "W5"]
+                        ELSE /\ pc' = [pc EXCEPT !["w"] = "R_fault"]
+                             /\ hret' = hret
              ELSE /\ pc' = [pc EXCEPT !["w"] = "H3"]
+                  /\ hret' = hret
        /\ UNCHANGED << rs, rep, runflag, fin, flag, next, cur, endsOK, res, 
                        startsOK, segments, lateStop, staleStart, lateEnd, 
-                       staleEnd, wrote, afterStop, ctimedout, wtimedout, i, ok >>
+                       staleEnd, earlyStop, selfStart, usedStart, usedStop, 
+                       wrote, afterStop, ctimedout, wtimedout, i, ok >>
 
 H3 == /\ pc["w"] = "H3"
+      /\ earlyStop' = (earlyStop \/ hret = "W5")
       /\ rs' = "STOPPING"
       /\ wtimedout' = FALSE
+      /\ afterStop' = 0
       /\ last' = [t |-> "w", k |-> "W", v |-> "rs", x |-> "STOPPING"]
       /\ pc' = [pc EXCEPT !["w"] = "H4f"]
       /\ UNCHANGED << rep, runflag, fin, flag, next, cur, endsOK, res, 
                       startsOK, segments, lateStop, staleStart, lateEnd, 
-                      staleEnd, wrote, afterStop, ctimedout, i, ok >>
+                      staleEnd, selfStart, usedStart, usedStop, hret, wrote, 
+                      ctimedout, i, ok >>
 
 H4f == /\ pc["w"] = "H4f"
        /\ last' = [t |-> "w", k |-> "R", v |-> "fin", x |-> IF fin THEN "True" ELSE "False"]
        /\ IF wtimedout
-             THEN /\ pc' = [pc EXCEPT !["w"] = "R1a"]
+             THEN /\ IF hret = "W5"
+                        THEN /\ hret' = "R1a"
+                             /\ pc' = [pc EXCEPT !["w"] = "W5"]
+                        ELSE /\ pc' = [pc EXCEPT !["w"] = "R1a"]
+                             /\ hret' = hret
              ELSE /\ pc' = [pc EXCEPT !["w"] = "H4s"]
+                  /\ hret' = hret
        /\ UNCHANGED << rs, rep, runflag, fin, flag, next, cur, endsOK, res, 
                        startsOK, segments, lateStop, staleStart, lateEnd, 
-                       staleEnd, wrote, afterStop, ctimedout, wtimedout, i, ok >>
+                       staleEnd, earlyStop, selfStart, usedStart, usedStop, 
+                       wrote, afterStop, ctimedout, wtimedout, i, ok >>
 
 H4s == /\ pc["w"] = "H4s"
        /\ \/ /\ last' = [t |-> "w", k |-> "sleep", v |-> "-", x |-> "-"]
@@ -432,7 +527,8 @@ H4s == /\ pc["w"] = "H4s"
        /\ pc' = [pc EXCEPT !["w"] = "H4f"]
        /\ UNCHANGED << rs, rep, runflag, fin, flag, next, cur, endsOK, res, 
                        startsOK, segments, lateStop, staleStart, lateEnd, 
-                       staleEnd, wrote, afterStop, i, ok >>
+                       staleEnd, earlyStop, selfStart, usedStart, usedStop, 
+                       hret, wrote, afterStop, i, ok >>
 
 R_fault == /\ pc["w"] = "R_fault"
            /\ rs' = "STOPPING"
@@ -440,17 +536,143 @@ R_fault == /\ pc["w"] = "R_fault"
            /\ pc' = [pc EXCEPT !["w"] = "R1a"]
            /\ UNCHANGED << rep, runflag, fin, flag, next, cur, endsOK, res, 
                            startsOK, segments, lateStop, staleStart, lateEnd, 
-                           staleEnd, wrote, afterStop, ctimedout, wtimedout, i, 
-                           ok >>
+                           staleEnd, earlyStop, selfStart, usedStart, usedStop, 
+                           hret, wrote, afterStop, ctimedout, wtimedout, i, ok >>
 
 R_end2 == /\ pc["w"] = "R_end2"
           /\ rs' = "STOPPING"
           /\ last' = [t |-> "w", k |-> "W", v |-> "rs", x |-> "STOPPING"]
-          /\ pc' = [pc EXCEPT !["w"] = "W7"]
+          /\ IF OnStop = "start" /\ ~usedStop
+                THEN /\ usedStop' = TRUE
+                     /\ pc' = [pc EXCEPT !["w"] = "L1a"]
+                ELSE /\ pc' = [pc EXCEPT !["w"] = "W7"]
+                     /\ UNCHANGED usedStop
           /\ UNCHANGED << rep, runflag, fin, flag, next, cur, endsOK, res, 
                           startsOK, segments, lateStop, staleStart, lateEnd, 
-                          staleEnd, wrote, afterStop, ctimedout, wtimedout, i, 
-                          ok >>
+                          staleEnd, earlyStop, selfStart, usedStart, hret, 
+                          wrote, afterStop, ctimedout, wtimedout, i, ok >>
+
+L1a == /\ pc["w"] = "L1a"
+       /\ last' = [t |-> "w", k |-> "R", v |-> "rs", x |-> rs]
+       /\ IF rs = "STARTING"
+             THEN /\ pc' = [pc EXCEPT !["w"] = "W7"]
+             ELSE /\ pc' = [pc EXCEPT !["w"] = "L1b"]
+       /\ UNCHANGED << rs, rep, runflag, fin, flag, next, cur, endsOK, res, 
+                       startsOK, segments, lateStop, staleStart, lateEnd, 
+                       staleEnd, earlyStop, selfStart, usedStart, usedStop, 
+                       hret, wrote, afterStop, ctimedout, wtimedout, i, ok >>
+
+L1b == /\ pc["w"] = "L1b"
+       /\ last' = [t |-> "w", k |-> "R", v |-> "rs", x |-> rs]
+       /\ IF rs = "STARTED"
+             THEN /\ pc' = [pc EXCEPT !["w"] = "W7"]
+             ELSE /\ pc' = [pc EXCEPT !["w"] = "L2"]
+       /\ UNCHANGED << rs, rep, runflag, fin, flag, next, cur, endsOK, res, 
+                       startsOK, segments, lateStop, staleStart, lateEnd, 
+                       staleEnd, earlyStop, selfStart, usedStart, usedStop, 
+                       hret, wrote, afterStop, ctimedout, wtimedout, i, ok >>
+
+L2 == /\ pc["w"] = "L2"
+      /\ last' = [t |-> "w", k |-> "R", v |-> "rs", x |-> rs]
+      /\ IF rs = "NOT_INITIALIZED"
+            THEN /\ pc' = [pc EXCEPT !["w"] = "W7"]
+            ELSE /\ pc' = [pc EXCEPT !["w"] = "L3a"]
+      /\ UNCHANGED << rs, rep, runflag, fin, flag, next, cur, endsOK, res, 
+                      startsOK, segments, lateStop, staleStart, lateEnd, 
+                      staleEnd, earlyStop, selfStart, usedStart, usedStop, 
+                      hret, wrote, afterStop, ctimedout, wtimedout, i, ok >>
+
+L3a == /\ pc["w"] = "L3a"
+       /\ last' = [t |-> "w", k |-> "R", v |-> "rep", x |-> rep]
+       /\ IF rep = "INITIALIZED"
+             THEN /\ pc' = [pc EXCEPT !["w"] = "L5"]
+             ELSE /\ pc' = [pc EXCEPT !["w"] = "L3b"]
+       /\ UNCHANGED << rs, rep, runflag, fin, flag, next, cur, endsOK, res, 
+                       startsOK, segments, lateStop, staleStart, lateEnd, 
+                       staleEnd, earlyStop, selfStart, usedStart, usedStop, 
+                       hret, wrote, afterStop, ctimedout, wtimedout, i, ok >>
+
+L3b == /\ pc["w"] = "L3b"
+       /\ last' = [t |-> "w", k |-> "R", v |-> "rep", x |-> rep]
+       /\ IF rep # "STARTED"
+             THEN /\ pc' = [pc EXCEPT !["w"] = "W7"]
+             ELSE /\ pc' = [pc EXCEPT !["w"] = "L5"]
+       /\ UNCHANGED << rs, rep, runflag, fin, flag, next, cur, endsOK, res, 
+                       startsOK, segments, lateStop, staleStart, lateEnd, 
+                       staleEnd, earlyStop, selfStart, usedStart, usedStop, 
+                       hret, wrote, afterStop, ctimedout, wtimedout, i, ok >>
+
+L5 == /\ pc["w"] = "L5"
+      /\ selfStart' = TRUE
+      /\ rs' = "STARTING"
+      /\ afterStop' = -1
+      /\ last' = [t |-> "w", k |-> "W", v |-> "rs", x |-> "STARTING"]
+      /\ pc' = [pc EXCEPT !["w"] = "L6a"]
+      /\ UNCHANGED << rep, runflag, fin, flag, next, cur, endsOK, res, 
+                      startsOK, segments, lateStop, staleStart, lateEnd, 
+                      staleEnd, earlyStop, usedStart, usedStop, hret, wrote, 
+                      ctimedout, wtimedout, i, ok >>
+
+L6a == /\ pc["w"] = "L6a"
+       /\ last' = [t |-> "w", k |-> "R", v |-> "rep", x |-> rep]
+       /\ IF rep # "INITIALIZED"
+             THEN /\ pc' = [pc EXCEPT !["w"] = "L8"]
+             ELSE /\ pc' = [pc EXCEPT !["w"] = "L6b"]
+       /\ UNCHANGED << rs, rep, runflag, fin, flag, next, cur, endsOK, res, 
+                       startsOK, segments, lateStop, staleStart, lateEnd, 
+                       staleEnd, earlyStop, selfStart, usedStart, usedStop, 
+                       hret, wrote, afterStop, ctimedout, wtimedout, i, ok >>
+
+L6b == /\ pc["w"] = "L6b"
+       /\ rep' = "STARTED"
+       /\ last' = [t |-> "w", k |-> "W", v |-> "rep", x |-> "STARTED"]
+       /\ pc' = [pc EXCEPT !["w"] = "L8"]
+       /\ UNCHANGED << rs, runflag, fin, flag, next, cur, endsOK, res, 
+                       startsOK, segments, lateStop, staleStart, lateEnd, 
+                       staleEnd, earlyStop, selfStart, usedStart, usedStop, 
+                       hret, wrote, afterStop, ctimedout, wtimedout, i, ok >>
+
+L8 == /\ pc["w"] = "L8"
+      /\ flag' = TRUE
+      /\ wtimedout' = FALSE
+      /\ last' = [t |-> "w", k |-> "ev", v |-> "set", x |-> "-"]
+      /\ pc' = [pc EXCEPT !["w"] = "L9r"]
+      /\ UNCHANGED << rs, rep, runflag, fin, next, cur, endsOK, res, startsOK, 
+                      segments, lateStop, staleStart, lateEnd, staleEnd, 
+                      earlyStop, selfStart, usedStart, usedStop, hret, wrote, 
+                      afterStop, ctimedout, i, ok >>
+
+L9r == /\ pc["w"] = "L9r"
+       /\ last' = [t |-> "w", k |-> "R", v |-> "runflag", x |-> IF runflag THEN "True" ELSE "False"]
+       /\ IF runflag \/ wtimedout
+             THEN /\ pc' = [pc EXCEPT !["w"] = "L10"]
+             ELSE /\ pc' = [pc EXCEPT !["w"] = "L9s"]
+       /\ UNCHANGED << rs, rep, runflag, fin, flag, next, cur, endsOK, res, 
+                       startsOK, segments, lateStop, staleStart, lateEnd, 
+                       staleEnd, earlyStop, selfStart, usedStart, usedStop, 
+                       hret, wrote, afterStop, ctimedout, wtimedout, i, ok >>
+
+L9s == /\ pc["w"] = "L9s"
+       /\ \/ /\ last' = [t |-> "w", k |-> "sleep", v |-> "-", x |-> "-"]
+             /\ UNCHANGED <<ctimedout, wtimedout>>
+          \/ /\ wtimedout' = TRUE
+             /\ ctimedout' = TRUE
+             /\ last' = [t |-> "w", k |-> "sleep", v |-> "timeout", x |-> "-"]
+       /\ pc' = [pc EXCEPT !["w"] = "L9r"]
+       /\ UNCHANGED << rs, rep, runflag, fin, flag, next, cur, endsOK, res, 
+                       startsOK, segments, lateStop, staleStart, lateEnd, 
+                       staleEnd, earlyStop, selfStart, usedStart, usedStop, 
+                       hret, wrote, afterStop, i, ok >>
+
+L10 == /\ pc["w"] = "L10"
+       /\ runflag' = FALSE
+       /\ startsOK' = startsOK + 1
+       /\ last' = [t |-> "w", k |-> "W", v |-> "runflag", x |-> IF FALSE THEN "True" ELSE "False"]
+       /\ pc' = [pc EXCEPT !["w"] = "W7"]
+       /\ UNCHANGED << rs, rep, fin, flag, next, cur, endsOK, res, segments, 
+                       lateStop, staleStart, lateEnd, staleEnd, earlyStop, 
+                       selfStart, usedStart, usedStop, hret, wrote, afterStop, 
+                       ctimedout, wtimedout, i, ok >>
 
 W7 == /\ pc["w"] = "W7"
       /\ rs' = "STOPPED"
@@ -459,7 +681,8 @@ W7 == /\ pc["w"] = "W7"
       /\ pc' = [pc EXCEPT !["w"] = "W8"]
       /\ UNCHANGED << rep, runflag, fin, flag, next, cur, endsOK, res, 
                       startsOK, segments, lateStop, staleStart, lateEnd, 
-                      staleEnd, wrote, ctimedout, wtimedout, i, ok >>
+                      staleEnd, earlyStop, selfStart, usedStart, usedStop, 
+                      hret, wrote, ctimedout, wtimedout, i, ok >>
 
 W8 == /\ pc["w"] = "W8"
       /\ last' = [t |-> "w", k |-> "R", v |-> "rep", x |-> rep]
@@ -470,7 +693,8 @@ W8 == /\ pc["w"] = "W8"
             ELSE /\ pc' = [pc EXCEPT !["w"] = "W9a"]
       /\ UNCHANGED << rs, rep, runflag, fin, flag, next, cur, endsOK, res, 
                       startsOK, segments, lateStop, staleStart, lateEnd, 
-                      staleEnd, wrote, afterStop, ctimedout, wtimedout, i, ok >>
+                      staleEnd, earlyStop, selfStart, usedStart, usedStop, 
+                      hret, wrote, afterStop, ctimedout, wtimedout, i, ok >>
 
 W9a == /\ pc["w"] = "W9a"
        /\ rep' = "ENDED"
@@ -478,7 +702,8 @@ W9a == /\ pc["w"] = "W9a"
        /\ pc' = [pc EXCEPT !["w"] = "W9b"]
        /\ UNCHANGED << rs, runflag, fin, flag, next, cur, endsOK, res, 
                        startsOK, segments, lateStop, staleStart, lateEnd, 
-                       staleEnd, wrote, afterStop, ctimedout, wtimedout, i, ok >>
+                       staleEnd, earlyStop, selfStart, usedStart, usedStop, 
+                       hret, wrote, afterStop, ctimedout, wtimedout, i, ok >>
 
 W9b == /\ pc["w"] = "W9b"
        /\ rs' = "ENDED"
@@ -486,7 +711,8 @@ W9b == /\ pc["w"] = "W9b"
        /\ pc' = [pc EXCEPT !["w"] = "W9c"]
        /\ UNCHANGED << rep, runflag, fin, flag, next, cur, endsOK, res, 
                        startsOK, segments, lateStop, staleStart, lateEnd, 
-                       staleEnd, wrote, afterStop, ctimedout, wtimedout, i, ok >>
+                       staleEnd, earlyStop, selfStart, usedStart, usedStop, 
+                       hret, wrote, afterStop, ctimedout, wtimedout, i, ok >>
 
 W9c == /\ pc["w"] = "W9c"
        /\ fin' = TRUE
@@ -496,7 +722,8 @@ W9c == /\ pc["w"] = "W9c"
              ELSE /\ pc' = [pc EXCEPT !["w"] = "W_clear"]
        /\ UNCHANGED << rs, rep, runflag, flag, next, cur, endsOK, res, 
                        startsOK, segments, lateStop, staleStart, lateEnd, 
-                       staleEnd, wrote, afterStop, ctimedout, wtimedout, i, ok >>
+                       staleEnd, earlyStop, selfStart, usedStart, usedStop, 
+                       hret, wrote, afterStop, ctimedout, wtimedout, i, ok >>
 
 W_clear == /\ pc["w"] = "W_clear"
            /\ flag' = FALSE
@@ -504,8 +731,8 @@ W_clear == /\ pc["w"] = "W_clear"
            /\ pc' = [pc EXCEPT !["w"] = "W_loop"]
            /\ UNCHANGED << rs, rep, runflag, fin, next, cur, endsOK, res, 
                            startsOK, segments, lateStop, staleStart, lateEnd, 
-                           staleEnd, wrote, afterStop, ctimedout, wtimedout, i, 
-                           ok >>
+                           staleEnd, earlyStop, selfStart, usedStart, usedStop, 
+                           hret, wrote, afterStop, ctimedout, wtimedout, i, ok >>
 
 W_loop == /\ pc["w"] = "W_loop"
           /\ last' = [t |-> "w", k |-> "R", v |-> "fin", x |-> IF fin THEN "True" ELSE "False"]
@@ -514,21 +741,22 @@ W_loop == /\ pc["w"] = "W_loop"
                 ELSE /\ pc' = [pc EXCEPT !["w"] = "W_wait"]
           /\ UNCHANGED << rs, rep, runflag, fin, flag, next, cur, endsOK, res, 
                           startsOK, segments, lateStop, staleStart, lateEnd, 
-                          staleEnd, wrote, afterStop, ctimedout, wtimedout, i, 
-                          ok >>
+                          staleEnd, earlyStop, selfStart, usedStart, usedStop, 
+                          hret, wrote, afterStop, ctimedout, wtimedout, i, ok >>
 
 W_wait == /\ pc["w"] = "W_wait"
           /\ last' = [t |-> "w", k |-> "ev", v |-> "wait", x |-> "-"]
           /\ pc' = [pc EXCEPT !["w"] = "W_woke"]
           /\ UNCHANGED << rs, rep, runflag, fin, flag, next, cur, endsOK, res, 
                           startsOK, segments, lateStop, staleStart, lateEnd, 
-                          staleEnd, wrote, afterStop, ctimedout, wtimedout, i, 
-                          ok >>
+                          staleEnd, earlyStop, selfStart, usedStart, usedStop, 
+                          hret, wrote, afterStop, ctimedout, wtimedout, i, ok >>
 
 worker == W_woke \/ W_clear0 \/ W2 \/ W3 \/ W5 \/ R0 \/ R1a \/ R1b
              \/ R_body \/ H1a \/ H1b \/ H3 \/ H4f \/ H4s \/ R_fault
-             \/ R_end2 \/ W7 \/ W8 \/ W9a \/ W9b \/ W9c \/ W_clear
-             \/ W_loop \/ W_wait
+             \/ R_end2 \/ L1a \/ L1b \/ L2 \/ L3a \/ L3b \/ L5 \/ L6a
+             \/ L6b \/ L8 \/ L9r \/ L9s \/ L10 \/ W7 \/ W8 \/ W9a \/ W9b
+             \/ W9c \/ W_clear \/ W_loop \/ W_wait
 
 C_next == /\ pc["c"] = "C_next"
           /\ wrote' = FALSE
@@ -541,7 +769,8 @@ C_next == /\ pc["c"] = "C_next"
                            ELSE /\ pc' = [pc EXCEPT !["c"] = "E1"]
           /\ UNCHANGED << rs, rep, runflag, fin, flag, next, cur, endsOK, res, 
                           startsOK, segments, lateStop, staleStart, lateEnd, 
-                          staleEnd, afterStop, ctimedout, wtimedout, i >>
+                          staleEnd, earlyStop, selfStart, usedStart, usedStop, 
+                          hret, afterStop, ctimedout, wtimedout, i >>
 
 S1a == /\ pc["c"] = "S1a"
        /\ last' = [t |-> "c", k |-> "R", v |-> "rs", x |-> rs]
@@ -552,7 +781,8 @@ S1a == /\ pc["c"] = "S1a"
                   /\ ok' = ok
        /\ UNCHANGED << rs, rep, runflag, fin, flag, next, cur, endsOK, res, 
                        startsOK, segments, lateStop, staleStart, lateEnd, 
-                       staleEnd, wrote, afterStop, ctimedout, wtimedout, i >>
+                       staleEnd, earlyStop, selfStart, usedStart, usedStop, 
+                       hret, wrote, afterStop, ctimedout, wtimedout, i >>
 
 S1b == /\ pc["c"] = "S1b"
        /\ last' = [t |-> "c", k |-> "R", v |-> "rs", x |-> rs]
@@ -563,7 +793,8 @@ S1b == /\ pc["c"] = "S1b"
                   /\ ok' = ok
        /\ UNCHANGED << rs, rep, runflag, fin, flag, next, cur, endsOK, res, 
                        startsOK, segments, lateStop, staleStart, lateEnd, 
-                       staleEnd, wrote, afterStop, ctimedout, wtimedout, i >>
+                       staleEnd, earlyStop, selfStart, usedStart, usedStop, 
+                       hret, wrote, afterStop, ctimedout, wtimedout, i >>
 
 S2 == /\ pc["c"] = "S2"
       /\ last' = [t |-> "c", k |-> "R", v |-> "rs", x |-> rs]
@@ -576,7 +807,8 @@ S2 == /\ pc["c"] = "S2"
                  /\ ok' = ok
       /\ UNCHANGED << rs, rep, runflag, fin, flag, next, cur, endsOK, res, 
                       startsOK, segments, lateStop, staleStart, lateEnd, 
-                      staleEnd, wrote, afterStop, ctimedout, wtimedout, i >>
+                      staleEnd, earlyStop, selfStart, usedStart, usedStop, 
+                      hret, wrote, afterStop, ctimedout, wtimedout, i >>
 
 S2x == /\ pc["c"] = "S2x"
        /\ last' = [t |-> "c", k |-> "R", v |-> "rs", x |-> rs]
@@ -587,7 +819,8 @@ S2x == /\ pc["c"] = "S2x"
                   /\ ok' = ok
        /\ UNCHANGED << rs, rep, runflag, fin, flag, next, cur, endsOK, res, 
                        startsOK, segments, lateStop, staleStart, lateEnd, 
-                       staleEnd, wrote, afterStop, ctimedout, wtimedout, i >>
+                       staleEnd, earlyStop, selfStart, usedStart, usedStop, 
+                       hret, wrote, afterStop, ctimedout, wtimedout, i >>
 
 S3a == /\ pc["c"] = "S3a"
        /\ last' = [t |-> "c", k |-> "R", v |-> "rep", x |-> rep]
@@ -596,7 +829,8 @@ S3a == /\ pc["c"] = "S3a"
              ELSE /\ pc' = [pc EXCEPT !["c"] = "S3b"]
        /\ UNCHANGED << rs, rep, runflag, fin, flag, next, cur, endsOK, res, 
                        startsOK, segments, lateStop, staleStart, lateEnd, 
-                       staleEnd, wrote, afterStop, ctimedout, wtimedout, i, ok >>
+                       staleEnd, earlyStop, selfStart, usedStart, usedStop, 
+                       hret, wrote, afterStop, ctimedout, wtimedout, i, ok >>
 
 S3b == /\ pc["c"] = "S3b"
        /\ last' = [t |-> "c", k |-> "R", v |-> "rep", x |-> rep]
@@ -607,7 +841,8 @@ S3b == /\ pc["c"] = "S3b"
                   /\ ok' = ok
        /\ UNCHANGED << rs, rep, runflag, fin, flag, next, cur, endsOK, res, 
                        startsOK, segments, lateStop, staleStart, lateEnd, 
-                       staleEnd, wrote, afterStop, ctimedout, wtimedout, i >>
+                       staleEnd, earlyStop, selfStart, usedStart, usedStop, 
+                       hret, wrote, afterStop, ctimedout, wtimedout, i >>
 
 S5 == /\ pc["c"] = "S5"
       /\ staleStart' = (staleStart \/ PostRun(pc["w"]) \/ (InRunLoop(pc["w"]) /\ rs = "STOPPING"))
@@ -618,6 +853,7 @@ S5 == /\ pc["c"] = "S5"
       /\ pc' = [pc EXCEPT !["c"] = "S6a"]
       /\ UNCHANGED << rep, runflag, fin, flag, next, cur, endsOK, res, 
                       startsOK, segments, lateStop, lateEnd, staleEnd, 
+                      earlyStop, selfStart, usedStart, usedStop, hret, 
                       ctimedout, wtimedout, i, ok >>
 
 S6a == /\ pc["c"] = "S6a"
@@ -627,7 +863,8 @@ S6a == /\ pc["c"] = "S6a"
              ELSE /\ pc' = [pc EXCEPT !["c"] = "S6b"]
        /\ UNCHANGED << rs, rep, runflag, fin, flag, next, cur, endsOK, res, 
                        startsOK, segments, lateStop, staleStart, lateEnd, 
-                       staleEnd, wrote, afterStop, ctimedout, wtimedout, i, ok >>
+                       staleEnd, earlyStop, selfStart, usedStart, usedStop, 
+                       hret, wrote, afterStop, ctimedout, wtimedout, i, ok >>
 
 S6b == /\ pc["c"] = "S6b"
        /\ rep' = "STARTED"
@@ -635,7 +872,8 @@ S6b == /\ pc["c"] = "S6b"
        /\ pc' = [pc EXCEPT !["c"] = "S8"]
        /\ UNCHANGED << rs, runflag, fin, flag, next, cur, endsOK, res, 
                        startsOK, segments, lateStop, staleStart, lateEnd, 
-                       staleEnd, wrote, afterStop, ctimedout, wtimedout, i, ok >>
+                       staleEnd, earlyStop, selfStart, usedStart, usedStop, 
+                       hret, wrote, afterStop, ctimedout, wtimedout, i, ok >>
 
 S8 == /\ pc["c"] = "S8"
       /\ flag' = TRUE
@@ -643,7 +881,8 @@ S8 == /\ pc["c"] = "S8"
       /\ last' = [t |-> "c", k |-> "ev", v |-> "set", x |-> "-"]
       /\ pc' = [pc EXCEPT !["c"] = "S9r"]
       /\ UNCHANGED << rs, rep, runflag, fin, next, cur, endsOK, res, startsOK, 
-                      segments, lateStop, staleStart, lateEnd, staleEnd, wrote, 
+                      segments, lateStop, staleStart, lateEnd, staleEnd, 
+                      earlyStop, selfStart, usedStart, usedStop, hret, wrote, 
                       afterStop, wtimedout, i, ok >>
 
 S9r == /\ pc["c"] = "S9r"
@@ -653,7 +892,8 @@ S9r == /\ pc["c"] = "S9r"
              ELSE /\ pc' = [pc EXCEPT !["c"] = "S9s"]
        /\ UNCHANGED << rs, rep, runflag, fin, flag, next, cur, endsOK, res, 
                        startsOK, segments, lateStop, staleStart, lateEnd, 
-                       staleEnd, wrote, afterStop, ctimedout, wtimedout, i, ok >>
+                       staleEnd, earlyStop, selfStart, usedStart, usedStop, 
+                       hret, wrote, afterStop, ctimedout, wtimedout, i, ok >>
 
 S9s == /\ pc["c"] = "S9s"
        /\ \/ /\ last' = [t |-> "c", k |-> "sleep", v |-> "-", x |-> "-"]
@@ -665,7 +905,8 @@ S9s == /\ pc["c"] = "S9s"
        /\ pc' = [pc EXCEPT !["c"] = "S9r"]
        /\ UNCHANGED << rs, rep, runflag, fin, flag, next, cur, endsOK, res, 
                        startsOK, segments, lateStop, staleStart, lateEnd, 
-                       staleEnd, wrote, afterStop, i, ok >>
+                       staleEnd, earlyStop, selfStart, usedStart, usedStop, 
+                       hret, wrote, afterStop, i, ok >>
 
 S10 == /\ pc["c"] = "S10"
        /\ runflag' = FALSE
@@ -673,8 +914,9 @@ S10 == /\ pc["c"] = "S10"
        /\ last' = [t |-> "c", k |-> "W", v |-> "runflag", x |-> IF FALSE THEN "True" ELSE "False"]
        /\ pc' = [pc EXCEPT !["c"] = "C_ret"]
        /\ UNCHANGED << rs, rep, fin, flag, next, cur, endsOK, res, segments, 
-                       lateStop, staleStart, lateEnd, staleEnd, wrote, 
-                       afterStop, ctimedout, wtimedout, i, ok >>
+                       lateStop, staleStart, lateEnd, staleEnd, earlyStop, 
+                       selfStart, usedStart, usedStop, hret, wrote, afterStop, 
+                       ctimedout, wtimedout, i, ok >>
 
 P1a == /\ pc["c"] = "P1a"
        /\ last' = [t |-> "c", k |-> "R", v |-> "rs", x |-> rs]
@@ -683,7 +925,8 @@ P1a == /\ pc["c"] = "P1a"
              ELSE /\ pc' = [pc EXCEPT !["c"] = "P1b"]
        /\ UNCHANGED << rs, rep, runflag, fin, flag, next, cur, endsOK, res, 
                        startsOK, segments, lateStop, staleStart, lateEnd, 
-                       staleEnd, wrote, afterStop, ctimedout, wtimedout, i, ok >>
+                       staleEnd, earlyStop, selfStart, usedStart, usedStop, 
+                       hret, wrote, afterStop, ctimedout, wtimedout, i, ok >>
 
 P1b == /\ pc["c"] = "P1b"
        /\ last' = [t |-> "c", k |-> "R", v |-> "rs", x |-> rs]
@@ -694,7 +937,8 @@ P1b == /\ pc["c"] = "P1b"
                   /\ ok' = ok
        /\ UNCHANGED << rs, rep, runflag, fin, flag, next, cur, endsOK, res, 
                        startsOK, segments, lateStop, staleStart, lateEnd, 
-                       staleEnd, wrote, afterStop, ctimedout, wtimedout, i >>
+                       staleEnd, earlyStop, selfStart, usedStart, usedStop, 
+                       hret, wrote, afterStop, ctimedout, wtimedout, i >>
 
 P3 == /\ pc["c"] = "P3"
       /\ lateStop' = (lateStop \/ ~InRunLoop(pc["w"]) \/ pc["w"] = "R_end2")
@@ -710,6 +954,7 @@ P3 == /\ pc["c"] = "P3"
             ELSE /\ pc' = [pc EXCEPT !["c"] = "P4f"]
       /\ UNCHANGED << rep, runflag, fin, flag, next, cur, endsOK, res, 
                       startsOK, segments, staleStart, lateEnd, staleEnd, 
+                      earlyStop, selfStart, usedStart, usedStop, hret, 
                       wtimedout, i, ok >>
 
 P4f == /\ pc["c"] = "P4f"
@@ -721,7 +966,8 @@ P4f == /\ pc["c"] = "P4f"
              ELSE /\ pc' = [pc EXCEPT !["c"] = "P4s"]
        /\ UNCHANGED << rs, rep, runflag, fin, flag, next, cur, endsOK, res, 
                        startsOK, segments, lateStop, staleStart, lateEnd, 
-                       staleEnd, wrote, afterStop, ctimedout, wtimedout, i, ok >>
+                       staleEnd, earlyStop, selfStart, usedStart, usedStop, 
+                       hret, wrote, afterStop, ctimedout, wtimedout, i, ok >>
 
 P4s == /\ pc["c"] = "P4s"
        /\ \/ /\ last' = [t |-> "c", k |-> "sleep", v |-> "-", x |-> "-"]
@@ -742,7 +988,8 @@ P4s == /\ pc["c"] = "P4s"
                    ELSE /\ pc' = [pc EXCEPT !["c"] = "P4f"]
        /\ UNCHANGED << rs, rep, runflag, fin, flag, next, cur, endsOK, res, 
                        startsOK, segments, lateStop, staleStart, lateEnd, 
-                       staleEnd, wrote, afterStop, i, ok >>
+                       staleEnd, earlyStop, selfStart, usedStart, usedStop, 
+                       hret, wrote, afterStop, i, ok >>
 
 P5a == /\ pc["c"] = "P5a"
        /\ last' = [t |-> "c", k |-> "R", v |-> "rs", x |-> rs]
@@ -751,7 +998,8 @@ P5a == /\ pc["c"] = "P5a"
              ELSE /\ pc' = [pc EXCEPT !["c"] = "P5b"]
        /\ UNCHANGED << rs, rep, runflag, fin, flag, next, cur, endsOK, res, 
                        startsOK, segments, lateStop, staleStart, lateEnd, 
-                       staleEnd, wrote, afterStop, ctimedout, wtimedout, i, ok >>
+                       staleEnd, earlyStop, selfStart, usedStart, usedStop, 
+                       hret, wrote, afterStop, ctimedout, wtimedout, i, ok >>
 
 P5b == /\ pc["c"] = "P5b"
        /\ last' = [t |-> "c", k |-> "R", v |-> "rep", x |-> rep]
@@ -760,7 +1008,8 @@ P5b == /\ pc["c"] = "P5b"
              ELSE /\ pc' = [pc EXCEPT !["c"] = "P5d"]
        /\ UNCHANGED << rs, rep, runflag, fin, flag, next, cur, endsOK, res, 
                        startsOK, segments, lateStop, staleStart, lateEnd, 
-                       staleEnd, wrote, afterStop, ctimedout, wtimedout, i, ok >>
+                       staleEnd, earlyStop, selfStart, usedStart, usedStop, 
+                       hret, wrote, afterStop, ctimedout, wtimedout, i, ok >>
 
 P5c == /\ pc["c"] = "P5c"
        /\ rs' = "ENDED"
@@ -768,7 +1017,8 @@ P5c == /\ pc["c"] = "P5c"
        /\ pc' = [pc EXCEPT !["c"] = "C_ret"]
        /\ UNCHANGED << rep, runflag, fin, flag, next, cur, endsOK, res, 
                        startsOK, segments, lateStop, staleStart, lateEnd, 
-                       staleEnd, wrote, afterStop, ctimedout, wtimedout, i, ok >>
+                       staleEnd, earlyStop, selfStart, usedStart, usedStop, 
+                       hret, wrote, afterStop, ctimedout, wtimedout, i, ok >>
 
 P5d == /\ pc["c"] = "P5d"
        /\ rs' = "STOPPED"
@@ -776,7 +1026,8 @@ P5d == /\ pc["c"] = "P5d"
        /\ pc' = [pc EXCEPT !["c"] = "E1"]
        /\ UNCHANGED << rep, runflag, fin, flag, next, cur, endsOK, res, 
                        startsOK, segments, lateStop, staleStart, lateEnd, 
-                       staleEnd, wrote, afterStop, ctimedout, wtimedout, i, ok >>
+                       staleEnd, earlyStop, selfStart, usedStart, usedStop, 
+                       hret, wrote, afterStop, ctimedout, wtimedout, i, ok >>
 
 E1 == /\ pc["c"] = "E1"
       /\ last' = [t |-> "c", k |-> "R", v |-> "rs", x |-> rs]
@@ -787,7 +1038,8 @@ E1 == /\ pc["c"] = "E1"
                  /\ ok' = ok
       /\ UNCHANGED << rs, rep, runflag, fin, flag, next, cur, endsOK, res, 
                       startsOK, segments, lateStop, staleStart, lateEnd, 
-                      staleEnd, wrote, afterStop, ctimedout, wtimedout, i >>
+                      staleEnd, earlyStop, selfStart, usedStart, usedStop, 
+                      hret, wrote, afterStop, ctimedout, wtimedout, i >>
 
 E2 == /\ pc["c"] = "E2"
       /\ last' = [t |-> "c", k |-> "R", v |-> "rep", x |-> rep]
@@ -798,7 +1050,8 @@ E2 == /\ pc["c"] = "E2"
                  /\ ok' = ok
       /\ UNCHANGED << rs, rep, runflag, fin, flag, next, cur, endsOK, res, 
                       startsOK, segments, lateStop, staleStart, lateEnd, 
-                      staleEnd, wrote, afterStop, ctimedout, wtimedout, i >>
+                      staleEnd, earlyStop, selfStart, usedStart, usedStop, 
+                      hret, wrote, afterStop, ctimedout, wtimedout, i >>
 
 E3 == /\ pc["c"] = "E3"
       /\ lateEnd' = (lateEnd \/ rep = "ENDED")
@@ -807,7 +1060,8 @@ E3 == /\ pc["c"] = "E3"
       /\ last' = [t |-> "c", k |-> "W", v |-> "rep", x |-> "ENDING"]
       /\ pc' = [pc EXCEPT !["c"] = "E4"]
       /\ UNCHANGED << rs, runflag, fin, flag, next, cur, endsOK, res, startsOK, 
-                      segments, lateStop, staleStart, staleEnd, afterStop, 
+                      segments, lateStop, staleStart, staleEnd, earlyStop, 
+                      selfStart, usedStart, usedStop, hret, afterStop, 
                       ctimedout, wtimedout, i, ok >>
 
 E4 == /\ pc["c"] = "E4"
@@ -818,8 +1072,9 @@ E4 == /\ pc["c"] = "E4"
       /\ last' = [t |-> "c", k |-> "ev", v |-> "set", x |-> "-"]
       /\ pc' = [pc EXCEPT !["c"] = "C_ret"]
       /\ UNCHANGED << rs, rep, runflag, fin, cur, res, startsOK, segments, 
-                      lateStop, staleStart, lateEnd, wrote, afterStop, 
-                      ctimedout, wtimedout, i, ok >>
+                      lateStop, staleStart, lateEnd, earlyStop, selfStart, 
+                      usedStart, usedStop, hret, wrote, afterStop, ctimedout, 
+                      wtimedout, i, ok >>
 
 C_ret == /\ pc["c"] = "C_ret"
          /\ res' = Append(res, IF ok THEN "ok" ELSE "DSOLError")
@@ -830,7 +1085,8 @@ C_ret == /\ pc["c"] = "C_ret"
                ELSE /\ pc' = [pc EXCEPT !["c"] = "C_next"]
          /\ UNCHANGED << rs, rep, runflag, fin, flag, next, cur, endsOK, 
                          startsOK, segments, lateStop, staleStart, lateEnd, 
-                         staleEnd, wrote, afterStop, ctimedout, wtimedout, ok >>
+                         staleEnd, earlyStop, selfStart, usedStart, usedStop, 
+                         hret, wrote, afterStop, ctimedout, wtimedout, ok >>
 
 caller == C_next \/ S1a \/ S1b \/ S2 \/ S2x \/ S3a \/ S3b \/ S5 \/ S6a
              \/ S6b \/ S8 \/ S9r \/ S9s \/ S10 \/ P1a \/ P1b \/ P3 \/ P4f
@@ -863,8 +1119,8 @@ RefusedWroteNothing == (last.k = "ret" /\ last.x = "DSOLError") => ~wrote
 (* an accepted stop() takes effect: after its STOPPING write the run thread finishes at most the event in progress *)
 StopEffective == afterStop <= 1
 
-(* the same, with the two known race families of the pinned tree set aside (they are reported as known findings) *)
-Known == lateStop \/ staleStart \/ lateEnd \/ staleEnd
+(* the same, with the known race / listener families of the pinned tree set aside (they are reported as known findings) *)
+Known == lateStop \/ staleStart \/ lateEnd \/ staleEnd \/ earlyStop \/ selfStart
 NoStuckStateK == Known \/ NoStuckState
 NoLostStartK == Known \/ NoLostStart
 EndedFinalK == Known \/ EndedFinal
